@@ -22,6 +22,7 @@
 #include <iostream>
 #include <limits>
 #include <memory>
+#include <mutex>
 #include <sstream>
 #include <stdexcept>
 
@@ -60,6 +61,10 @@ namespace bxdecay0 {
     epsabs                       = 0.0;
     int count                    = 0;
     int status                   = 0;
+    // The GSL error handler is process-wide: saving/disabling/restoring it must not interleave
+    // with another thread doing the same (a generator may be initialised concurrently):
+    static std::mutex gsl_error_handler_mutex;
+    std::lock_guard<std::mutex> gsl_error_handler_lock(gsl_error_handler_mutex);
     gsl_error_handler_t * gsl_eh = gsl_set_error_handler_off();
     BXDECAY0_VERIF_YIELD(1);
     while (true) {
